@@ -11,10 +11,10 @@ ex = S.ex
 PROP = "C05"
 META = {
     "level": "exploration",
-    "claim": "Held on the executed runs: for every cell of (conflict shape create/create | edit/edit) x (content pair: equal, empty vs non-empty, small, 1-2 KiB, >2 KiB, large) x (resolver behaviour: pick local|remote x keep, merged data without keep, None, exception, one temporary error then None, non-tuple, 3-tuple, non-file first element) x provider flavour, under many random interleavings of engine steps after the conflict exists: the resolver is called exactly once with two handles whose side labels and bytes are the two sides' actual contents (never when the contents are equal), the final trees are the contractual outcome written down from the statement, and all interleavings of a cell end in the same outcome.",
+    "claim": "Held on the executed runs: for every cell of (conflict shape create/create | edit/edit) x (content pair: equal, empty vs non-empty, small, 1-2 KiB, >2 KiB, large) x (resolver behaviour: pick local|remote x keep, merged data without keep, None, exception, one temporary error then None, non-tuple, 3-tuple, non-file first element) x provider flavour (with equal and with different hash algorithms on the two sides), under many random interleavings of engine steps after the conflict exists: the resolver is called exactly once with two handles whose side labels and bytes are the two sides' actual contents (never when the contents are equal), the final trees are the contractual outcome written down from the statement, and all interleavings of a cell end in the same outcome.",
     "note": "Trusted: the expected-outcome table in this file (from the statement, not from the code). The answer (new data, keep=True) is finding K4 and is only probed. Renames during an unresolved conflict are hazard HF.",
     "technique": "runtime monitoring: resolver tap (calls, side labels, bytes read) + expected-outcome table + outcome-set-per-cell check across interleavings",
-    "plan": {"quick": {"shards": 16, "timeout": 600, "schedules": 6},
+    "plan": {"quick": {"shards": 16, "timeout": 600, "schedules": 24},
              "thorough": {"shards": 32, "timeout": 3000, "schedules": 150}},
     "rule": "evaluation = one run of one cell under one random schedule; cells enumerated completely (2 shapes x 7 content "
             "pairs x 11 behaviours x 5 flavours), schedules drawn per (seed, cell, k); distinct = distinct (cell, schedule "
@@ -112,7 +112,11 @@ def run_cell(shape, pair, behaviour, flavour, seed, k, acc=None, count=True):
     a, b = contents(pair, rng)
     merged = b"merged:" + a[:10] + b[:10]
     tap = ResolverTap(behaviour, merged)
-    sim = S.Sim(flavour, rng=random.Random(rng.getrandbits(32)), resolver=tap)
+    # every other schedule pairs providers with different hash algorithms (the two sides' hashes are then incomparable:
+    # "identical content" can only be established by hashing the downloaded bytes with the right provider)
+    import hashlib
+    hf = (None, (lambda b: hashlib.sha256(b).digest())) if k % 2 else (None, None)
+    sim = S.Sim(flavour, rng=random.Random(rng.getrandbits(32)), resolver=tap, hash_funcs=hf)
     probs = []
     name = W.Names(rng).fresh("f")
     steps = []
